@@ -10,10 +10,10 @@ def run(tree, rep, tier):
     B1_B2_counts(rep, flow, want=("B1",))
     S2_estimator(rep, flow)
     W1_W2_builders(rep, flow, want=("W2",), builders=["tomography.stabilizer_measurement_circuit"])
-    P4_inverse(rep, flow)
+    P4_inverse(rep, flow, modulo_paulis=True)
     rep.trusted += ["Q1", "Q2", "Q5"]
     rep.assumptions += ["Pauli.evolve(C, frame='s') = C P C^dagger and frame='h' (default) = C^dagger P C with Qiskit's sign convention (trusted)"]
     rep.decided += ["2^n entries: mask loop domain 1..2^n-1 plus identity entry (W6)", "keys are unsigned Paulis (W7)",
                     "conjugation directions, mask identity, sign table, parity estimator, bit order as in C10 (W4, W5, S1, S2, B1)",
-                    "the stored readout is the composed one (W2) and is the inverted sign-free preparation circuit (P4)"]
+                    "the stored readout is the composed one (W2) and is the inverted preparation circuit up to Pauli layers (P4, weak form: sign-dependence of the readout does not break C12, it breaks C03)"]
     rep.not_decided += ["sign correctness inside Pauli.evolve (trusted)", "that the readout diagonalises the group (C03, value-level)"]
